@@ -23,6 +23,7 @@ EventStep(ev) ==
   \/ ev.e = "stream" /\ ev.ok /\ ev.mok /\ Stream(ev.s, ev.from, ev.evs)
   \/ ev.e = "save" /\ ev.mok /\ Save(ev.s, ev.sub, ev.tok)
   \/ ev.e = "load" /\ ev.mok /\ Load(ev.s, ev.sub, ev.tok)
+  \/ ev.e = "refused" /\ Refused
 
 TraceInit == LogInit /\ l = 1 /\ TLCSet(1, 1)
 TraceNext == l <= Len(Trace) /\ EventStep(Trace[l]) /\ l' = l + 1
